@@ -65,6 +65,10 @@ class TraceLoader(SourceFileLoader):
                 (tracer, tracer.make_syntax_augmenters(self._ast_rewriter))
             )
         self._augmentation_context: bool = False
+        # set by source_to_code: the code object was produced by the rewriter in this process
+        self._rewrote_source: bool = False
+        # code object obtained by exec_module ahead of running the module
+        self._code_for_exec: Optional[Tuple[str, CodeType]] = None
 
     def get_tracers_for_path(self, path: str) -> List["BaseTracer"]:
         return [
@@ -179,6 +183,10 @@ class TraceLoader(SourceFileLoader):
             )
 
     def get_code(self, fullname) -> Optional[CodeType]:
+        if self._code_for_exec is not None and self._code_for_exec[0] == fullname:
+            prepared = self._code_for_exec[1]
+            self._code_for_exec = None
+            return prepared
         if all(tracer.bytecode_caching_allowed for tracer in self._tracers):
             with self.patch_cache_handlers():
                 code = super().get_code(fullname)
@@ -224,6 +232,7 @@ class TraceLoader(SourceFileLoader):
                 with self._ast_rewriter.tracer_override_context(
                     tracers_for_path, path_str
                 ):
+                    self._rewrote_source = True
                     return compile(
                         self._ast_rewriter.visit(ast.parse(data)),
                         path,
@@ -269,23 +278,45 @@ class TraceLoader(SourceFileLoader):
             enforce_pickled_bookkeeping and bytecode_caching_allowed
         )
         pickle_path = None
+        table_is_fresh = False
         if enforce_pickled_bookkeeping:
             cache_path = self._pyccolo_cache_from_source(source_path)
             pickle_path = os.path.splitext(cache_path)[0] + ".pkl"
             tracer = self._tracers[-1]
-        pickle_path_exists = pickle_path is not None and os.path.exists(pickle_path)
-        if pickle_path is not None and tracer is not None and pickle_path_exists:
-            # read the pickled bookkeeping and use it to update ast bookkeeping / remapping
-            assert source_path not in tracer.ast_bookkeeper_by_fname
-            with open(pickle_path, "rb") as f:
-                new_bookkeeping, remapping = pickle.load(f).remap(id(module))
-            tracer.add_bookkeeping(new_bookkeeping, id(module))
-            tracer.node_id_remapping_by_fname[source_path] = remapping
         should_reenable_saved_state.reverse()
+        if pickle_path is not None and tracer is not None:
+            # the pickled node table belongs to the cached bytecode: find out first whether the code
+            # comes from the cache or is compiled now (stale or missing cache)
+            self._rewrote_source = False
+            code = self.get_code(module.__name__)
+            # True: compiled now, and the bytecode cache entry (re)written if that is possible at all
+            table_is_fresh = self._rewrote_source
+            if not table_is_fresh and not os.path.exists(pickle_path):
+                # cached bytecode without its node table: do not use it
+                code = self.source_to_code(self.get_data(source_path), source_path)
+                self._register_guards(code)
+            elif not table_is_fresh:
+                # read the pickled bookkeeping and use it to update ast bookkeeping / remapping
+                assert source_path not in tracer.ast_bookkeeper_by_fname
+                with open(pickle_path, "rb") as f:
+                    new_bookkeeping, remapping = pickle.load(f).remap(id(module))
+                tracer.add_bookkeeping(new_bookkeeping, id(module))
+                tracer.node_id_remapping_by_fname[source_path] = remapping
+            if code is not None:
+                self._code_for_exec = (module.__name__, code)
         super().exec_module(module)
-        if pickle_path is not None and tracer is not None and not pickle_path_exists:
-            with open(pickle_path, "wb") as f:
-                pickle.dump(tracer.ast_bookkeeper_by_fname[source_path], f)
+        if (
+            pickle_path is not None
+            and tracer is not None
+            and table_is_fresh
+            and not sys.dont_write_bytecode
+        ):
+            # like the bytecode, the node table is only a cache: where it cannot be written, go without
+            try:
+                with open(pickle_path, "wb") as f:
+                    pickle.dump(tracer.ast_bookkeeper_by_fname[source_path], f)
+            except OSError:
+                pass
         for tracer, should_reenable in zip(self._tracers, should_reenable_saved_state):
             tracer._emit_event(
                 TraceEvent.after_import.value, None, sys._getframe(), module=module
